@@ -4,10 +4,11 @@ applies each patch to /repo and undoes it straight afterwards. Writes seeded/MAT
 import json, os, subprocess, sys, glob, re, time
 V = os.path.dirname(os.path.dirname(os.path.abspath(__file__)))
 ALSO = {'C01-mutB': ['C06'], 'C02-mutA': ['C08', 'C03'], 'C02-mutB': ['C04'], 'C03-mutA': ['C08'], 'C04-mutB': ['C19'], 'C07-mutA': ['C04'], 'C10-mutA': ['C05'], 'C10-mutB': ['C13'],
-        'C13-mutB': ['C14'], 'C14-mutB': ['C04'], 'C16-mutB': ['C17'], 'C19-mutA': ['C11'], 'C19-mutB': ['C12'], 'C05-mutB': ['C10']}
+        'C13-mutB': ['C14'], 'C14-mutB': ['C04'], 'C16-mutB': ['C17'], 'C19-mutA': ['C11'], 'C19-mutB': ['C12'], 'C05-mutB': ['C10'],
+        'C02-r2B': ['C08'], 'C04-r2A': ['C05'], 'C05-r2A': ['C15'], 'C05-r2C': ['C16'], 'C07-r2A': ['C06'], 'C14-r2A': ['C13'], 'C19-r2A': ['C11'], 'C19-r2B': ['C13'], 'C04-r2B': ['C19']}
 only = set(sys.argv[1:])
 res = json.load(open(os.path.join(V, 'seeded', 'MATRIX.json'))) if os.path.exists(os.path.join(V, 'seeded', 'MATRIX.json')) else {}
-for d in sorted(glob.glob(os.path.join(V, 'seeded', 'C*-mut*'))):
+for d in sorted(glob.glob(os.path.join(V, 'seeded', 'C*-*'))):
     sid = os.path.basename(d)
     if only and sid not in only:
         continue
